@@ -430,6 +430,14 @@ func applySetUpdates(dir string, opts GlobalOptions, id string, updates map[stri
 			if err := validateEpicRef(graph, epicID); err != nil {
 				return err
 			}
+			// Moving a task changes what it waits for and who waits for it.
+			previous := task.EpicID
+			task.EpicID = epicID
+			cyclic := hasWaitCycle(graph)
+			task.EpicID = previous
+			if cyclic {
+				return errWaitCycle
+			}
 		}
 
 		now := time.Now().UTC()
